@@ -481,8 +481,14 @@ func runTornTail(c *verdict.Ctx, tr *rand.Rand, idx, p int, walDir string, nd *s
 	if pvSrc != "" {
 		opt.PV = copyFilePV(pvSrc, filepath.Join(dir, "pv"))
 	}
-	app := recapp.New(recapp.Options{})
+	// a copy of the live application: the start-up replays the records a second time after the repair, into
+	// a state machine that has already seen them once, and may then legitimately commit the unfinished height
+	// (e.g. a block part that came before its proposal is accepted on the second pass)
+	app := nd.App.Clone(recapp.Options{})
 	rep := sim.NewNodeFrom(obs, net.GenDoc, sim.KeyOf(seed, obs), opt, sim.CopyMemDB(nd.BlockDB), sim.CopyMemDB(nd.StateDB), sim.CopyMemDB(nd.EvDB), app)
+	if os.Getenv("VERIF_C15B_LOG") != "" {
+		rep.CS.SetLogger(log.NewTMLogger(log.NewSyncWriter(os.Stdout)))
+	}
 	var startErr error
 	panicked := ""
 	func() {
@@ -497,6 +503,14 @@ func runTornTail(c *verdict.Ctx, tr *rand.Rand, idx, p int, walDir string, nd *s
 			rep.CS.Wait()
 		}
 	}()
+	if startErr != nil || panicked != "" {
+		// the receive routine, which stops the WAL on its way out, never ran: stop the WAL OnStart opened, or its
+		// group ticker outlives the directory
+		if w, ok := rep.CS.VerifWAL().(*cs.BaseWAL); ok && w != nil && w.IsRunning() {
+			_ = w.Stop()
+			w.Wait()
+		}
+	}
 	rep.Close()
 	c.Eval()
 	c.Count("torn.starts", 1)
